@@ -8,6 +8,7 @@ def n_of(ctx, quick, thorough):
 
 
 def plan_C01(ctx):
+    e1_freq_norm_stream(ctx)
     e1_build_algo(ctx)
     e2_build_algo(ctx)
     e1_int_coder(ctx)
@@ -181,6 +182,12 @@ def e2_dv_merge(ctx, num):
     run_scenarios(ctx, [lift.lift_dvmerge(b, i) for i, b in enumerate(behs)], "e2dvmerge", perfile=10, shards=4)
 
 
+def e1_freq_norm_stream(ctx):
+    """E1: the freq/norm stream at byte level (uvarints incl. payload-free first bytes), every read/skip pattern."""
+    tlc_mc(ctx, "FreqNormStream", "MC_FreqNormStream.cfg", workers=8)
+    devs(ctx, "FreqNormStream", ["PeekFirstByte", "SkipOneByteNorm", "HasLocsFromFreq"], "AllInv")
+
+
 def e1_merge_reads(ctx):
     """E1: a merge as a sequence of storage reads with a transient or permanent fault at every position, twice on one input."""
     tlc_mc(ctx, "MergeReads", "MC_MergeReads.cfg", workers=4)
@@ -295,6 +302,7 @@ def e1_match_loop(ctx):
 
 
 def plan_C05(ctx):
+    e1_freq_norm_stream(ctx)
     e1_postings_iter(ctx)
     e1_chunking(ctx)
     e2_postings_iter(ctx, n_of(ctx, 400, 6000))
